@@ -6,6 +6,8 @@ constraint is checked through check(tree), check(str), parse(str, skip_check=Tru
 parse(str) on the SAME solver object, and repair() of valid inputs.  Oracle: checks/refsem.py.
 """
 import os
+import random
+import signal
 from typing import List
 
 import vlib
@@ -40,6 +42,37 @@ PART = os.environ.get("VERIF_PART", "")
 os.environ.setdefault("VERIF_STMTS", "2")
 
 
+REPAIR = os.environ.get("VERIF_REPAIR", "1") == "1"
+_SLOW = object()
+
+
+class _Alarm(BaseException):
+    pass
+
+
+def _on_alarm(signum, frame):
+    raise _Alarm()
+
+
+def _guarded(fn):
+    """repair / mutate run the solver loop: a wall-clock guard abandons a call that takes longer than 20 s"""
+    signal.signal(signal.SIGALRM, _on_alarm)
+    signal.setitimer(signal.ITIMER_REAL, 20, 1.0)
+    try:
+        return fn()
+    except _Alarm:
+        return _SLOW
+    finally:
+        signal.setitimer(signal.ITIMER_REAL, 0)
+
+
+def _must_be_valid(r, k, what):
+    if r.is_open() or not vlib.valid_tree(G, r, allow_open=False) or r.value != "<start>":
+        raise AssertionError("%s, which is not a closed derivation tree of the grammar" % what)
+    if not refsem.ref_eval(PARSED[k], r, G):
+        raise AssertionError("%s, which violates the constraint" % what)
+
+
 def _one(t, s, k):
     sol, want = SOLVERS[k], refsem.ref_eval(PARSED[k], t, G)
     what = "constraint #%d %r, input %r" % (k, CONSTRAINTS[k], s)
@@ -70,6 +103,18 @@ def _one(t, s, k):
                 got = r.value_or(None)
                 if got is None or str(got) != s:
                     raise AssertionError("%s: repair() of a valid input returned %r" % (what, None if got is None else str(got)))
+        elif REPAIR:
+            # repair of an input that violates the constraint: nothing, or a valid input
+            random.seed(k)
+            got = _guarded(lambda: sol.repair(t).value_or(None))
+            if got is not _SLOW and got is not None:
+                _must_be_valid(got, k, "%s: repair() returned %r" % (what, str(got)))
+        if REPAIR:
+            # every tree returned by mutate satisfies the constraint (whether or not the input does)
+            random.seed(k + 1)
+            got = _guarded(lambda: sol.mutate(t, min_mutations=1, max_mutations=2))
+            if got is not _SLOW:
+                _must_be_valid(got, k, "%s: mutate() returned %r" % (what, str(got)))
     except AssertionError:
         raise
     except Exception as e:
